@@ -42,6 +42,22 @@ theorem releaseSelf_nodes {cfg : Cfg} {m m' : Mem} {j : Nat} (h : m.releaseSelf 
       subst h
       simp only [hr, if_false, Mem.setNode]
 
+theorem releaseSelf_ext {cfg : Cfg} {m m' : Mem} {j : Nat} (h : m.releaseSelf cfg j = some m') : Ext m m' := by
+  unfold Mem.releaseSelf at h
+  cases hn : m.nodes[j]? with
+  | none => simp [hn] at h
+  | some nd =>
+    simp only [hn] at h
+    by_cases hr : nd.refer - 1 = 0
+    · simp only [hr, if_true, Option.some.injEq] at h
+      subst h
+      split
+      · exact setNode_ext _ _ _
+      · exact (freeMem_ext _ _ _ _).trans (setNode_ext _ _ _)
+    · simp only [hr, if_false, Option.some.injEq] at h
+      subst h
+      exact setNode_ext _ _ _
+
 theorem claims_recycle (nd : NodeS) (o : Nat) : nd.recycle.claims o = false := by
   simp [NodeS.claims, NodeS.recycle]
 
@@ -72,16 +88,18 @@ theorem Rc.release_plain {m : Mem} {C : List Nat} {i : Nat} {nd : NodeS} (h : Rc
     · have hd : nd.decr = nd.recycle := by simp [NodeS.decr, hr]
       have hch0 : m.ch j = 0 := by omega
       refine ⟨by rw [hd]; simp [NodeS.recycle, hlive0], fun h0 => by rw [hd] at h0; simp [NodeS.recycle, hlive0] at h0,
-        fun _ => ?_, fun o ho' => by rw [hd] at ho'; simp [NodeS.recycle] at ho'⟩
+        fun _ => ?_, fun o ho' => (by rw [hd] at ho'; simp [NodeS.recycle] at ho'),
+        fun _ _ k hk => (by rw [hd] at hk; simp [NodeS.recycle] at hk)⟩
       exact ⟨by rw [hd]; simp [NodeS.recycle], hnd.1, by rw [hch]; exact hch0, by rw [hd]; rfl, by rw [hd]; rfl⟩
     · have hd : nd.decr = { nd with refer := nd.refer - 1 } := by simp [NodeS.decr, hr]
       refine ⟨by rw [hd]; exact r.once, fun _ => ?_, fun hdd => by rw [hd] at hdd; simp only at hdd; omega,
-        fun o ho' => by rw [hd] at ho'; simp only at ho'; rw [ho] at ho'; cases ho'⟩
+        fun o ho' => (by rw [hd] at ho'; simp only at ho'; rw [ho] at ho'; cases ho'),
+        fun hu hoo k hk => (by rw [hd] at hu hoo hk; exact r.caller hu hoo k hk)⟩
       rw [hch, inC_not_mem hnd.1, hd]
       simp only
       omega
   · have rx := h.node j x hx'
-    refine ⟨rx.once, fun h0 => ?_, fun hd => ?_, fun o ho' h0 => ?_⟩
+    refine ⟨rx.once, fun h0 => ?_, fun hd => ?_, fun o ho' h0 => ?_, rx.caller⟩
     · rw [hch, ← inC_cons_ne hji]; exact rx.live h0
     · obtain ⟨a, b, c, d, e⟩ := rx.dead hd
       exact ⟨a, fun hc => b (List.mem_cons_of_mem _ hc), by rw [hch]; exact c, d, e⟩
@@ -157,7 +175,8 @@ theorem Rc.release_child {m : Mem} {C : List Nat} {i o : Nat} {nd on : NodeS} (h
     have hjo : ¬ j = o := fun e => hoi e.symm
     simp only [hjo, if_false, Nat.add_zero] at h2
     refine ⟨by rw [hd]; simp [NodeS.recycle, hlive0], fun h0 => by rw [hd] at h0; simp [NodeS.recycle, hlive0] at h0,
-      fun _ => ?_, fun o' ho' => by rw [hd] at ho'; simp [NodeS.recycle] at ho'⟩
+      fun _ => ?_, fun o' ho' => (by rw [hd] at ho'; simp [NodeS.recycle] at ho'),
+      fun _ _ k hk => (by rw [hd] at hk; simp [NodeS.recycle] at hk)⟩
     exact ⟨by rw [hd]; simp [NodeS.recycle], hnd.1, by rw [h2]; exact hchi, by rw [hd]; rfl, by rw [hd]; rfl⟩
   · rcases getElem?_setNode hx1 with ⟨rfl, rfl, _⟩ | ⟨hjo, hx0⟩
     · -- the origin
@@ -166,20 +185,22 @@ theorem Rc.release_child {m : Mem} {C : List Nat} {i o : Nat} {nd on : NodeS} (h
       by_cases hr : on.refer - 1 = 0
       · have hdo : on.decr = on.recycle := by simp [NodeS.decr, hr]
         refine ⟨by rw [hdo]; simp [NodeS.recycle, holive], fun h0 => by rw [hdo] at h0; simp [NodeS.recycle, holive] at h0,
-          fun _ => ?_, fun o' ho' => by rw [hdo] at ho'; simp [NodeS.recycle] at ho'⟩
+          fun _ => ?_, fun o' ho' => (by rw [hdo] at ho'; simp [NodeS.recycle] at ho'),
+          fun _ _ k hk => (by rw [hdo] at hk; simp [NodeS.recycle] at hk)⟩
         have hin : inC C j = 0 := by omega
         refine ⟨by rw [hdo]; simp [NodeS.recycle], fun hc => ?_, by omega, by rw [hdo]; rfl, by rw [hdo]; rfl⟩
         simp [inC, hc] at hin
       · have hdo : on.decr = { on with refer := on.refer - 1 } := by simp [NodeS.decr, hr]
         refine ⟨by rw [hdo]; exact ro.once, fun _ => ?_, fun hdd => by rw [hdo] at hdd; simp only at hdd; omega,
-          fun o' ho' => by rw [hdo] at ho'; simp only at ho'; rw [horig] at ho'; cases ho'⟩
+          fun o' ho' => (by rw [hdo] at ho'; simp only at ho'; rw [horig] at ho'; cases ho'),
+          fun hu hoo k hk => (by rw [hdo] at hu hoo hk; exact ro.caller hu hoo k hk)⟩
         have hgoal : ((inC C j + ((m.setNode j on.decr).setNode i nd.decr).ch j : Nat) : Int) ≤ on.refer - 1 := by omega
         rw [hdo] at hgoal ⊢; exact hgoal
     · -- everybody else
       have rx := h.node j x hx0
       have h2 := hch2 j
       have hle : ((m.setNode o on.decr).setNode i nd.decr).ch j ≤ m.ch j := by omega
-      refine ⟨rx.once, fun h0 => ?_, fun hdd => ?_, fun o' ho' h0 => ?_⟩
+      refine ⟨rx.once, fun h0 => ?_, fun hdd => ?_, fun o' ho' h0 => ?_, rx.caller⟩
       · have := rx.live h0
         rw [inC_cons_ne hji] at this
         omega
@@ -219,7 +240,7 @@ theorem release1_rc {cfg : Cfg} {m m' : Mem} {C : List Nat} {i : Nat} (h : Rc m 
       simp only [ho] at hr
       obtain ⟨nd', g1, g2⟩ := releaseSelf_nodes hr
       rw [hn] at g1; cases g1
-      exact (h.release_plain hn ho).of_nodes_eq g2
+      exact (h.release_plain hn ho).of_nodes_eq g2 ((Ext.of_blocks_eq rfl : Ext (m.setNode i nd.decr) m).trans (releaseSelf_ext hr))
     | some o =>
       simp only [ho] at hr
       have hlive0 : nd.recycled = 0 := h.chained_live hn List.mem_cons_self
@@ -240,6 +261,7 @@ theorem release1_rc {cfg : Cfg} {m m' : Mem} {C : List Nat} {i : Nat} (h : Rc m 
           have hn1 : m1.nodes[i]? = some nd := by rw [g2, List.getElem?_set_ne hoi]; exact hn
           rw [hn1] at g3; cases g3
           exact (h.release_child hn ho hon).of_nodes_eq (by rw [g4, g2]; rfl)
+            ((Ext.of_blocks_eq rfl : Ext ((m.setNode o on.decr).setNode i nd.decr) m).trans ((releaseSelf_ext h1).trans (releaseSelf_ext hr)))
 
 theorem releaseAll_rc {cfg : Cfg} : ∀ (l : List Nat) {m m' : Mem} {C : List Nat}, Rc m (l ++ C) → m.releaseAll cfg l = some m' → Rc m' C
   | [], m, m', C, h, hr => by simp [Mem.releaseAll] at hr; subst hr; simpa using h
